@@ -24,7 +24,7 @@ from vlib import discharge, families, harness, netcheck, numrun, ref_metanet, ru
 from vlib.symx import S, SymArray
 
 PID = "C12"
-ALPHA = ["N(X,0)", "N(Y,63)", "N(Y,9)", "SX", "MX", "SX+F0", "MX+F2", "SX+F1"]
+ALPHA = ["N(X,0)", "N(Y,63)", "N(Y,9)", "SX", "MX", "SX+F0", "MX+F2", "SX+F1", "N(X:=Y)", "N(Xpart)"]
 
 
 def snapshot(X):
@@ -80,11 +80,20 @@ class Session:
             self.Y = runs.float_inputs(topo, numrun.sample_env(topo, rng), "array")
         self.p0 = params_snapshot(self.built)
 
-    def numpy_step(self, vals, bits):
+    def overwrite_in_place(self, dst, src):
+        """the caller re-uses its buffers: same array objects, new contents"""
+        for k in dst:
+            if isinstance(dst[k], np.ndarray):
+                dst[k][...] = src[k]
+            else:
+                dst[k] = src[k]
+
+    def numpy_step(self, vals, bits, engine=None, drop=()):
+        vals = {k: v for k, v in vals.items() if k[1] not in drop}
         ic = runs.init_conditions(self.built, vals)
         ic_snap = {el: dict(d) for el, d in ic.items()}
         snap = snapshot(vals)
-        self.built.net.step(init_conditions=ic, engine=runs.numpy_engine(), **runs.flags_of(bits), **T_.model_kwargs(self.topo, self.P))
+        self.built.net.step(init_conditions=ic, engine=engine or runs.numpy_engine(), **runs.flags_of(bits), **T_.model_kwargs(self.topo, self.P))
         problems = []
         bad = unchanged(vals, snap)
         if bad:
@@ -108,6 +117,20 @@ class Session:
         return [] if params_snapshot(self.built) == self.p0 else ["element parameters changed by a CasADi step/compilation"]
 
     def do(self, op):
+        if op == "N(X:=Y)":
+            if not hasattr(self, "X0"):
+                self.X0 = {k: (v.copy() if isinstance(v, np.ndarray) else v) for k, v in self.X.items()}
+            self.overwrite_in_place(self.X, self.Y)
+            nxt, problems = self.numpy_step(self.X, 0)
+            return ("asY", nxt), problems
+        if op == "restore":
+            if hasattr(self, "X0"):
+                self.overwrite_in_place(self.X, self.X0)
+            return None, []
+        if op == "N(Xpart)":
+            from sym_metanet.engines.numpy import Engine as NE
+            # partial initial conditions: the speed limits of VSL links are left to the engine
+            return self.numpy_step(self.X, 0, NE(np.float64(7.0)), drop=("v_ctrl",) if any(l.is_vsl for l in self.topo.links) else ())
         if op.startswith("N("):
             vals = self.X if op[2] == "X" else self.Y
             bits = int(op[4:-1])
@@ -132,12 +155,20 @@ def work(item):
         probs = []
         first, problems = s.do("N(X,0)")
         probs += problems
+        asY = []
         for op in hist:
-            _, problems = s.do(op)
+            r, problems = s.do(op)
             probs += [f"after {op}: {p}" for p in problems]
+            if isinstance(r, tuple) and r[0] == "asY":
+                asY.append(r[1])
+        s.do("restore")
         again, problems = s.do("N(X,0)")
         probs += problems
-        return first, again, probs
+        refY = None
+        if asY:
+            s2 = Session(topo, seed, sym)  # fresh network objects: reference step from Y
+            refY, _ = s2.numpy_step(s2.Y, 0)
+        return first, again, probs, asY, refY
 
     for sym in (True, False):
         try:
@@ -157,9 +188,19 @@ def work(item):
             if pr.exc is not None:
                 bad(f"raised {type(pr.exc).__name__}: {str(pr.exc)[:200]}")
                 continue
-            first, again, problems = pr.value
+            first, again, problems, asY, refY = pr.value
             for p in problems:
                 bad(p)
+            for got in asY:
+                for key in refY:
+                    a, b = symx.leaves(got[key]), symx.leaves(refY[key])
+                    for i, (x, y) in enumerate(zip(a, b)):
+                        if sym:
+                            acc.query(prover, topo, "numpy-symbolic", f"re-used buffers with new contents: {key[1]}_{key[0]}[{i}] == step from those contents", x.t == y.t, (), pr.pc,
+                                      lambda m, key=key, i=i: {"key": f"c12:{topo.name}:{hist}:buffers", "group": "stale after in-place overwrite",
+                                                               "what": f"{topo.describe()} | history {list(hist)}: after the caller overwrote its arrays in place, the step does not use the new contents ({key[1]}_{key[0]}[{i}])", "replay": rec})
+                        elif not numrun.close(float(x.c if hasattr(x, "c") else x), float(y.c if hasattr(y, "c") else y), 1e-12, 1e-12):
+                            bad(f"float twin: after the caller overwrote its arrays in place the step does not use the new contents ({key[1]}_{key[0]}[{i}])")
             acc.d["encodings"] += 1
             if sym:
                 acc.d["paths"] += 1
